@@ -3,6 +3,7 @@
 package secretstore
 
 import (
+	"strings"
 	"bytes"
 	"context"
 	"encoding/hex"
@@ -35,6 +36,8 @@ type c10Workload struct {
 	Ops     []c10Op
 	// probes: all messages of the workload, opened through the log on a clone
 	Msgs []c10Msg
+	// datastore at the end of the crash-free run
+	cleanEnd *memDS
 }
 
 type c10Msg struct {
@@ -174,6 +177,7 @@ func c10RunReceiver(rep *vrep.Report, wl *c10Workload, double bool) {
 	}
 	boundary = append(boundary, len(log))
 	P.ds.log = nil
+	wl.cleanEnd = P.ds.clone()
 	cleanFinal := map[int]bool{}
 	for mi, m := range wl.Msgs {
 		cleanFinal[mi] = wl.probe(P, P.ds, m).ok
@@ -306,6 +310,39 @@ func c10AfterRestart(rep *vrep.Report, wl *c10Workload, P *party, state *memDS, 
 	boundary2 = append(boundary2, len(log2))
 	R.ds.log = nil
 	_ = reissueFailed
+	// consistency of what survives: when every message of the workload is offered again and again until nothing more
+	// opens (C02's retry), a message that opens that way after the crash-free run and does not after the crashed run,
+	// while a LATER message of the same sender does, is a hole in the sender's key sequence that nothing will ever
+	// fill (a window that is merely one key short at its far end never produces one)
+	if len(crashes) == 1 {
+		fix := func(ds *memDS) map[int]bool {
+			p := P.onDS(ds.clone())
+			opened := map[int]bool{}
+			for progress := true; progress; {
+				progress = false
+				for mi, m := range wl.Msgs {
+					if !opened[mi] && p.open(m.G, m.Data).ok {
+						opened[mi] = true
+						progress = true
+					}
+				}
+			}
+			return opened
+		}
+		cf, rf := fix(wl.cleanEnd), fix(R.ds)
+		for mi, m := range wl.Msgs {
+			if !cf[mi] || rf[mi] {
+				continue
+			}
+			sender := m.Label[:strings.Index(m.Label, "/")+1]
+			for mj := mi + 1; mj < len(wl.Msgs); mj++ {
+				if strings.HasPrefix(wl.Msgs[mj].Label, sender) && rf[mj] {
+					viol("hole-in-key-sequence-after-crash", fmt.Sprintf("after the restart and the continuation, with every message offered until nothing more opens: %s never opens while the later %s of the same sender does (both open in the crash-free run)", m.Label, wl.Msgs[mj].Label))
+					break
+				}
+			}
+		}
+	}
 	// informational: messages openable at the end of the clean run but not at the end of the crashed run
 	for mi, ok := range cleanFinal {
 		if ok && !wl.probe(P, R.ds, wl.Msgs[mi]).ok {
